@@ -1,4 +1,5 @@
 use either::Either;
+use std::convert::TryFrom;
 use std::{
     cell::RefCell,
     cell::RefMut,
@@ -54,7 +55,9 @@ impl<R: RealNumberInternalTrait> Number<R> {
     pub(crate) fn exact_eqv(&self, other: &Self) -> bool {
         match (self, other) {
             (Number::Integer(a), Number::Integer(b)) => a.eq(b),
-            (Number::Rational(a1, b1), Number::Rational(a2, b2)) => (a1 * b2).eq(&(b1 * a2)),
+            (Number::Rational(a1, b1), Number::Rational(a2, b2)) => {
+                (*a1 as i64 * *b2 as i64).eq(&(*b1 as i64 * *a2 as i64))
+            }
             (Number::Real(a), Number::Real(b)) => a.eq(b),
             _ => false,
         }
@@ -66,7 +69,9 @@ impl<R: RealNumberInternalTrait> PartialEq for Number<R> {
     fn eq(&self, other: &Number<R>) -> bool {
         match upcast_oprands((*self, *other)) {
             NumberBinaryOperand::Integer(a, b) => a.eq(&b),
-            NumberBinaryOperand::Rational(a1, a2, b1, b2) => (a1 * b2).eq(&(b1 * a2)),
+            NumberBinaryOperand::Rational(a1, a2, b1, b2) => {
+                (a1 as i64 * b2 as i64).eq(&(b1 as i64 * a2 as i64))
+            }
             NumberBinaryOperand::Real(a, b) => a.eq(&b),
         }
     }
@@ -76,7 +81,9 @@ impl<R: RealNumberInternalTrait> PartialOrd for Number<R> {
     fn partial_cmp(&self, other: &Number<R>) -> Option<Ordering> {
         match upcast_oprands((*self, *other)) {
             NumberBinaryOperand::Integer(a, b) => a.partial_cmp(&b),
-            NumberBinaryOperand::Rational(a1, a2, b1, b2) => (a1 * b2).partial_cmp(&(b1 * a2)),
+            NumberBinaryOperand::Rational(a1, a2, b1, b2) => {
+                (a1 as i64 * b2 as i64).partial_cmp(&(b1 as i64 * a2 as i64))
+            }
             NumberBinaryOperand::Real(a, b) => a.partial_cmp(&b),
         }
     }
@@ -115,6 +122,22 @@ pub(crate) fn upcast_oprands<R: RealNumberInternalTrait>(
     }
 }
 
+// Exact results are computed in a wider type; one that does not fit the exact
+// representation becomes the nearest inexact number instead of overflowing.
+fn integer_or_real<R: RealNumberInternalTrait>(value: i128) -> Number<R> {
+    match i32::try_from(value) {
+        Ok(integer) => Number::Integer(integer),
+        Err(_) => Number::Real(R::from(value).unwrap()),
+    }
+}
+
+fn rational_or_real<R: RealNumberInternalTrait>(numerator: i128, denominator: i128) -> Number<R> {
+    match (i32::try_from(numerator), i32::try_from(denominator)) {
+        (Ok(numerator), Ok(denominator)) => Number::Rational(numerator, denominator),
+        _ => Number::Real(R::from(numerator).unwrap() / R::from(denominator).unwrap()),
+    }
+}
+
 impl<R: RealNumberInternalTrait> NumberBinaryOperand<R> {
     pub fn lhs(&self) -> Number<R> {
         match self {
@@ -137,10 +160,11 @@ impl<R: RealNumberInternalTrait> std::ops::Add<Number<R>> for Number<R> {
     type Output = Number<R>;
     fn add(self, rhs: Number<R>) -> Number<R> {
         match upcast_oprands((self, rhs)) {
-            NumberBinaryOperand::Integer(a, b) => Number::Integer(a + b),
+            NumberBinaryOperand::Integer(a, b) => integer_or_real(a as i128 + b as i128),
             NumberBinaryOperand::Real(a, b) => Number::Real(a + b),
             NumberBinaryOperand::Rational(a1, a2, b1, b2) => {
-                Number::Rational(a1 * b2 + a2 * b1, a2 * b2)
+                let (a1, a2, b1, b2) = (a1 as i128, a2 as i128, b1 as i128, b2 as i128);
+                rational_or_real(a1 * b2 + a2 * b1, a2 * b2)
             }
         }
     }
@@ -150,10 +174,11 @@ impl<R: RealNumberInternalTrait> std::ops::Sub<Number<R>> for Number<R> {
     type Output = Number<R>;
     fn sub(self, rhs: Number<R>) -> Number<R> {
         match upcast_oprands((self, rhs)) {
-            NumberBinaryOperand::Integer(a, b) => Number::Integer(a - b),
+            NumberBinaryOperand::Integer(a, b) => integer_or_real(a as i128 - b as i128),
             NumberBinaryOperand::Real(a, b) => Number::Real(a - b),
             NumberBinaryOperand::Rational(a1, a2, b1, b2) => {
-                Number::Rational(a1 * b2 - a2 * b1, a2 * b2)
+                let (a1, a2, b1, b2) = (a1 as i128, a2 as i128, b1 as i128, b2 as i128);
+                rational_or_real(a1 * b2 - a2 * b1, a2 * b2)
             }
         }
     }
@@ -163,9 +188,11 @@ impl<R: RealNumberInternalTrait> std::ops::Mul<Number<R>> for Number<R> {
     type Output = Number<R>;
     fn mul(self, rhs: Number<R>) -> Number<R> {
         match upcast_oprands((self, rhs)) {
-            NumberBinaryOperand::Integer(a, b) => Number::Integer(a * b),
+            NumberBinaryOperand::Integer(a, b) => integer_or_real(a as i128 * b as i128),
             NumberBinaryOperand::Real(a, b) => Number::Real(a * b),
-            NumberBinaryOperand::Rational(a1, a2, b1, b2) => Number::Rational(a1 * b1, a2 * b2),
+            NumberBinaryOperand::Rational(a1, a2, b1, b2) => {
+                rational_or_real(a1 as i128 * b1 as i128, a2 as i128 * b2 as i128)
+            }
         }
     }
 }
@@ -176,8 +203,8 @@ impl<R: RealNumberInternalTrait> std::ops::Div<Number<R>> for Number<R> {
         match upcast_oprands((self, rhs)) {
             NumberBinaryOperand::Integer(a, b) => {
                 check_division_by_zero(b)?;
-                match a % b {
-                    0 => Ok(Number::Integer(a / b)),
+                match a as i128 % b as i128 {
+                    0 => Ok(integer_or_real(a as i128 / b as i128)),
                     _ => Ok(Number::Rational(a, b)),
                 }
             }
@@ -186,7 +213,10 @@ impl<R: RealNumberInternalTrait> std::ops::Div<Number<R>> for Number<R> {
                 check_division_by_zero(b1)?;
                 check_division_by_zero(a2)?;
                 check_division_by_zero(b2)?;
-                Ok(Number::Rational(a1 * b2, a2 * b1))
+                Ok(rational_or_real(
+                    a1 as i128 * b2 as i128,
+                    a2 as i128 * b1 as i128,
+                ))
             }
         }
     }
@@ -195,9 +225,9 @@ impl<R: RealNumberInternalTrait> std::ops::Div<Number<R>> for Number<R> {
 impl<R: RealNumberInternalTrait> Number<R> {
     pub fn abs(self) -> Number<R> {
         match self {
-            Number::Integer(num) => Number::Integer(num.abs()),
+            Number::Integer(num) => integer_or_real((num as i128).abs()),
             Number::Real(num) => Number::Real(num.abs()),
-            Number::Rational(a, b) => Number::Rational(a.abs(), b.abs()),
+            Number::Rational(a, b) => rational_or_real((a as i128).abs(), (b as i128).abs()),
         }
     }
 
@@ -257,7 +287,8 @@ impl<R: RealNumberInternalTrait> Number<R> {
         match self {
             Number::Integer(num) => Number::Integer(num),
             Number::Real(num) => Number::Real(num.floor()),
-            Number::Rational(a, b) => Number::Integer({
+            Number::Rational(a, b) => integer_or_real({
+                let (a, b) = (a as i128, b as i128);
                 let quot = a / b;
                 if quot >= 0 || quot * b == a {
                     quot
@@ -272,7 +303,8 @@ impl<R: RealNumberInternalTrait> Number<R> {
         match self {
             Number::Integer(num) => Number::Integer(num),
             Number::Real(num) => Number::Real(num.ceil()),
-            Number::Rational(a, b) => Number::Integer({
+            Number::Rational(a, b) => integer_or_real({
+                let (a, b) = (a as i128, b as i128);
                 let quot = a / b;
                 if quot <= 0 || quot * b == a {
                     quot
